@@ -30,8 +30,8 @@ CLAIMED = {
    text="tags_equiv: for every valid, printable constraint set and every assignment the toolchain reading of the printed lines equals avo's Evaluate; tags_roundtrip; tags_invalid. Real Validate/Evaluate/GoString/Format/ParseConstraint compared exactly with the model on generated formulas x all assignments; the real go/build/constraint and go/build.MatchFile evaluate avo's printed header in accept- requests.",
    note=TB + "The //go:build expression parser is a measured assumption; tag character table measured from the installed unicode tables. Findings F8c/F8d (size limits of go/format and go/build/constraint) are listed in known_findings.json."),
  "C17": dict(cat="proof", tech="Lean 4 permutation-invariance lemmas + regenerated map-iteration census + multi-run/multi-process measurement",
-   text="Every range-over-map in the generation path is enumerated from source (go/types) and pinned by a kernel-checked expected list; order independence is proved for MaskSet operations, candidate sorting, mostrestricted, the whole Allocate loop w.r.t. the order of the interference edge list and of the possible map (allocLoop_perm), and the liveness visiting order. Generated tie-heavy programs are compiled 20x in-process and in 4 fresh processes per quick run; asm bytes, stub bytes, allocation and ISA lists must be identical.",
-   note=TB + "Order independence of the per-kind allocator loop, Allocation.Merge (disjoint keys) and the sorted ISA list is measured, not proved."),
+   text="Every range-over-map in the generation path is enumerated from source (go/types) and pinned by a kernel-checked expected list; order independence is proved for MaskSet operations, candidate sorting, mostrestricted, the whole Allocate loop w.r.t. the order of the interference edge list and of the possible map (allocLoop_perm), the merge of per-kind allocations (allocate_kinds_perm), the sorted ISA list (requiredISA_perm) and the liveness visiting order. Generated tie-heavy programs are compiled 20x in-process and in 4 fresh processes per quick run; asm bytes, stub bytes, allocation and ISA lists must be identical.",
+   note=TB + "Every enumerated map iteration has an order-independence theorem; what is measured rather than proved is that the models are the code (exact correspondence) and the absence of other nondeterminism sources (multi-run / multi-process digests)."),
  "C19": dict(cat="proof", tech="Lean 4 proof + regenerated tables + exhaustive correspondence",
    text="attr_value (all 16-bit values, any name table consistent with the header), text_clause_value, attr_include, include_pass; consistency of avo's regenerated table with the installed textflag.h by decide; exhaustive correspondence over all 65536 values x both directive kinds plus an acceptor evaluating the implementation's own text.",
    note=TB + "Assumed: the assembler evaluates A|B|n as bitwise OR; textflag.h parser."),
